@@ -56,7 +56,10 @@ def upload_part(ck):
     want = 340 if ck.tier == "quick" else 800
     j = 0
     done = 0
-    while done < want and not (done >= 60 and ck.out_of_time()):
+    import time as _time
+    t_start = _time.time()
+    half = 0.5 * BUDGET[ck.tier]      # leave the other half of the budget to the placement enumeration below
+    while done < want and not (done >= 60 and (_time.time() - t_start > half or ck.out_of_time())):
         j += 1
         if not ck.mine(j):
             continue
